@@ -172,7 +172,10 @@ Proof.
     pose proof (i_entry_pc c s (m_s c s I) Hpos Hw) as He.
     match goal with E : dl s = DPub _ _ PCheck |- _ =>
       destruct (i_entry_dl c s (m_s c s I) He _ _ _ E) as [X|[X _]]; discriminate end.
-  - inv_some Hr. split; reflexivity.
+  - inv_some Hr. split; [reflexivity|].
+    match goal with E : (is_server c && _)%bool = true |- _ =>
+      apply andb_true_iff in E; destruct E as [E _]; unfold is_server in E;
+      destruct (c_var c); [discriminate|reflexivity] end.
 Qed.
 
 Lemma minv_init : forall c, MInv c init.
@@ -201,6 +204,31 @@ Ltac frame_tac HR :=
   | unfold pend; unf; unfold with_log; cbn [dl]; ctx_rw; try reflexivity
   | unf; unfold with_log; cbn [g_log]; try apply incl_refl; try (apply incl_appl; apply incl_refl) ].
 
+Lemma srvpush_recv : forall c s r s',
+  good c -> SInv c s -> res_ok' c (g_log s) r -> has_start (log s) = false -> ps_entry s = true ->
+  c_var c = VServer ->
+  log s' = log s ++ FSubPush (r_off r) (r_ep r) :: (if c_fix_srvpubs c then map FPub (r_pubs r) else []) ->
+  g_log s' = g_log s -> dl s' = dl s -> bound s' = r_pos r ->
+  RecvInv s'.
+Proof.
+  intros c s r s' (Hpos & Hanch & Hsrv & Hnb) IS (Hok & Hf1 & Hf2) Hns He Hvar Hlog Hg Hd Hb.
+  pose proof Hok as (A & _).
+  assert (Hpn : pend s' = None).
+  { unfold pend. rewrite Hd. exact (pend_none_entry c s IS He). }
+  destruct (c_fix_srvpubs c) eqn:Hfix.
+  - eapply (recvinv_of_res _ (g_log s) r (map po (r_pubs r)) true); try reflexivity; try exact Hok; try assumption.
+    rewrite Hlog. rewrite (recv_app_nostart_l _ _ Hns). cbn [recv is_start start_off start_pubs app].
+    rewrite (pub_offs_map_FPub _ (sorted_cons_nonzero _ _ A)). reflexivity.
+  - assert (Hnil : r_pubs r = []).
+    { apply Hf1. destruct (r_recovered r) eqn:Er; [|reflexivity].
+      specialize (Hf2 eq_refl). specialize (Hsrv Hf2 Hvar). congruence. }
+    eapply (recvinv_of_res _ (g_log s) r (map po (r_pubs r)) true); try reflexivity; try exact Hok; try assumption.
+    rewrite Hlog. rewrite (recv_app_nostart_l _ _ Hns). cbn. rewrite Hnil. reflexivity.
+Qed.
+
+Lemma is_server_var : forall c, is_server c = true -> c_var c = VServer.
+Proof. intros c H. unfold is_server in H. destruct (c_var c); [discriminate|reflexivity]. Qed.
+
 Lemma minv_step : forall c s l s', good c -> MInv c s -> step c s l = Some s' -> MInv c s'.
 Proof.
   intros c s l s' Hgood I H.
@@ -226,6 +254,22 @@ Proof.
     all: try rewrite !emits_eq; try rewrite !emit_eq; unfold set_pending; cbn [closed with_log]; try rewrite !Hc.
     all: try (frame_tac Irecv; fail).
     all: try (exfalso; clear - Hc'; unf; cbn in Hc'; discriminate).
+    (* LSrvPush: either order (after the commit as the code stands, before it when patched) *)
+    all: try (match goal with |- context [FSubPush] => idtac end;
+      match goal with IS0 : SInv _ ?s0, E : pc ?s0 = ?P |- _ =>
+        assert (Hns : has_start (log s0) = false) by (apply (i_prestart c s0 IS0); rewrite E; reflexivity);
+        assert (He : ps_entry s0 = true) by (apply (i_entry_pc c s0 IS0 Hpos); rewrite E; reflexivity);
+        assert (Hres : res_ok' c (g_log s0) r) by (apply Ires; rewrite E; reflexivity);
+        assert (Hvar : c_var c = VServer) by
+          first [ match goal with E' : pc _ = SSrvCommitted _ |- _ => exact (proj2 (Isrv _ E')) end
+                | apply is_server_var; assumption ];
+        cbn [closed with_log]; rewrite ?Hc; cbn [with_log log];
+        eapply (srvpush_recv c s0 r); try eassumption; try reflexivity;
+        try match goal with E' : c_fix_srvpubs _ = _ |- _ => rewrite E' end;
+        try (unfold set_pc, with_log; cbn [log]; rewrite <- ?app_assoc; reflexivity);
+        try (unfold bound, set_pc, with_log; cbn [pc g_pos]; try reflexivity;
+             match goal with E' : pc _ = SSrvCommitted _ |- _ => exact (proj1 (Isrv _ E')) end)
+      end).
     - (* LCheck on a publication *)
       apply check_pub_recv; auto.
     - (* LEnqueue of a publication *)
@@ -271,40 +315,7 @@ Proof.
       assert (Hns : has_start (log s) = false) by (apply (i_prestart c s IS); rewrite Hpc; reflexivity).
       intros p0 r' Hr'. unfold set_pc, set_ch in Hr'; cbn [log] in Hr'.
       apply recv_none in Hns. congruence.
-    - (* LSrvPush, patched: recovered publications follow the push *)
-      match goal with E : pc s = SSrvCommitted ?r |- _ => rename E into Hpc end.
-      assert (Hns : has_start (log s) = false) by (apply (i_prestart c s IS); rewrite Hpc; reflexivity).
-      assert (He : ps_entry s = true) by (apply (i_entry_pc c s IS Hpos); rewrite Hpc; reflexivity).
-      assert (Hres : res_ok' c (g_log s) r) by (apply Ires; rewrite Hpc; reflexivity).
-      destruct Hres as (Hok & Hf1 & Hf2).
-      destruct (Isrv r Hpc) as [Hgp Hvar].
-      cbn [closed with_log]. rewrite Hc. cbn [with_log log].
-      pose proof Hok as (A & _).
-      eapply (recvinv_of_res _ (g_log s) r (map po (r_pubs r)) true); try reflexivity; try exact Hok.
-      + exact A.
-      + unfold set_pc, with_log; cbn [log]. rewrite <- app_assoc.
-        rewrite (recv_app_nostart_l _ _ Hns). cbn [app recv is_start start_off start_pubs].
-        rewrite (pub_offs_map_FPub _ (sorted_cons_nonzero _ _ A)). reflexivity.
-      + unfold bound, set_pc, with_log; cbn [pc g_pos]. exact Hgp.
-      + unfold pend, set_pc, with_log; cbn [dl]. exact (pend_none_entry c s IS He).
-    - (* LSrvPush, as the code stands: only sound without recovered publications *)
-      match goal with E : pc s = SSrvCommitted ?r |- _ => rename E into Hpc end.
-      match goal with E : c_fix_srvpubs c = false |- _ => rename E into Hnf end.
-      assert (Hns : has_start (log s) = false) by (apply (i_prestart c s IS); rewrite Hpc; reflexivity).
-      assert (He : ps_entry s = true) by (apply (i_entry_pc c s IS Hpos); rewrite Hpc; reflexivity).
-      assert (Hres : res_ok' c (g_log s) r) by (apply Ires; rewrite Hpc; reflexivity).
-      destruct Hres as (Hok & Hf1 & Hf2).
-      destruct (Isrv r Hpc) as [Hgp Hvar].
-      assert (Hnil : r_pubs r = []).
-      { apply Hf1. destruct (r_recovered r) eqn:Er; [|reflexivity].
-        specialize (Hf2 eq_refl). specialize (Hsrv Hf2 Hvar). congruence. }
-      pose proof Hok as (A & _).
-      eapply (recvinv_of_res _ (g_log s) r (map po (r_pubs r)) true); try reflexivity; try exact Hok.
-      + exact A.
-      + unfold set_pc, with_log; cbn [log].
-        rewrite (recv_app_nostart _ _ Hns). cbn. rewrite Hnil. reflexivity.
-      + unfold bound, set_pc, with_log; cbn [pc g_pos]. exact Hgp.
-      + unfold pend, set_pc, with_log; cbn [dl]. exact (pend_none_entry c s IS He). }
+ }
   constructor.
   - exact HS'.
   - intros r Hr. eapply step_pc_res; eauto.
